@@ -739,12 +739,12 @@ class Plucker(SMUserList):
             # no common perpendicular if lines are parallel
             return None
         else:
-            # lines are skew or intersecting
-            w = np.cross(l1.w, l2.w)
-            v = np.cross(l1.v, l2.w) - np.cross(l2.v, l1.w) + \
-                (l1 * l2) * np.dot(l1.w, l2.w) * base.unitvec(np.cross(l1.w, l2.w))
-            
-        return Plucker(v, w)
+            # lines are skew or intersecting: the line through the foot of the
+            # perpendicular on l1, along the direction normal to both lines
+            n = np.cross(l1.uw, l2.uw)
+            p1 = l1.pp + np.dot(np.cross(l2.pp - l1.pp, l2.uw), n) / np.dot(n, n) * l1.uw
+
+        return Plucker.PointDir(p1, n)
 
 
     def __mul__(self, right):  # pylint: disable=no-self-argument
